@@ -30,7 +30,7 @@ PENDING = 'old({0}.send_buffer)[:old({0}.send_idx)]'.format(FS)
 contract('AdbDevice._filesync_flush',
          real=dev('_filesync_flush'),
          params={'self': 'obj:AdbDevice', 'adb_info': 'obj:AdbInfo', 'filesync_info': 'obj:FSInfo'},
-         props=['C04', 'C07', 'C10', 'C12', 'C08', 'C09'],
+         props=['C04', 'C07', 'C10', 'C12', 'C08', 'C09', 'C13'],
          requires=STREAM_OK + FS_INV + [RINV, NOLOCK],
          modifies=IO_MOD + RD_MOD + [FS + '.send_idx', FS + '.recv_buffer', 'G.sync_flushed'],
          ghost_exit=[('G.sync_flushed', 'store(G.sync_flushed, {0}, G.sync_flushed[{0}] + old({1}.send_buffer)[:old({1}.send_idx)])'.format(LID, FS))],
@@ -59,7 +59,7 @@ contract('AdbDevice._filesync_read_buffered',
          real=dev('_filesync_read_buffered'),
          params={'self': 'obj:AdbDevice', 'size': 'int', 'adb_info': 'obj:AdbInfo', 'filesync_info': 'obj:FSInfo'},
          returns='bytearray',
-         props=['C08', 'C09', 'C04', 'C10', 'C12'],
+         props=['C08', 'C09', 'C04', 'C10', 'C12', 'C13'],
          requires=STREAM_OK + ['size >= 0', RINV, NOLOCK],
          modifies=IO_MOD + RD_MOD + [FS + '.recv_buffer', 'G.spos'],
          ghost_exit=[('G.spos', 'store(G.spos, {0}, G.spos[{0}] + size)'.format(LID))],
@@ -130,7 +130,7 @@ contract('AdbDevice._filesync_read',
          params={'self': 'obj:AdbDevice', 'expected_ids': 'cmdset', 'adb_info': 'obj:AdbInfo', 'filesync_info': 'obj:FSInfo'},
          variants=FSREAD_VARIANTS,
          returns=fs_read_returns,
-         props=['C08', 'C09', 'C10', 'C07', 'C04', 'C12'],
+         props=['C08', 'C09', 'C10', 'C07', 'C04', 'C12', 'C13'],
          requires=STREAM_OK + FS_INV + [RINV, NOLOCK],
          modifies=IO_MOD + RD_MOD + FS_MOD + ['G.fi', 'G.spos', 'G.sync_flushed'],
          ghost_exit=[('G.fi', 'store(G.fi, {0}, G.fi[{0}] + 1)'.format(LID))],
@@ -188,7 +188,7 @@ contract('AdbDevice._filesync_send',
          params={'self': 'obj:AdbDevice', 'command_id': 'bytes', 'adb_info': 'obj:AdbInfo', 'filesync_info': 'obj:FSInfo', 'data': 'bytes',
                  'size': 'opt[int]'},
          variants=[{'data': 'bytes'}, {'data': 'str'}],
-         props=['C07', 'C04', 'C12'],
+         props=['C07', 'C04', 'C12', 'C13'],
          requires=STREAM_OK + FS_INV_S + [RINV, 'command_id in FILESYNC_ID_TO_WIRE',
                                           ('C07', 'record-fits-the-send-buffer', '8 + len(utf8(data)) <= {0}._maxdata'.format(FS)), NOLOCK],
          modifies=IO_MOD + RD_MOD + FS_MOD + ['G.sync_out', 'G.sync_flushed', 'G.nsync', 'G.pushed'],
